@@ -46,15 +46,19 @@ ASSUMPTIONS = [
     "time: after DataSavingMixin.load_data_from_pvd the time manager must hold the last written time and dt (exactly) "
     "and the exporter's counter the last index; clocks whose times the pvd format '%f' cannot tell apart are skipped; "
     "with write_pvd(times=) the most recent state is the one attached to the largest time",
+    "time information: (time, dt) restored by load_time_information + set_time_and_dt_from_exported_steps(k) equal the "
+    "written pair exactly for every index k and -1, for constant and adaptive clocks, whatever dt_min_max the writing "
+    "and the restoring TimeManager have; written dt values are assigned or produced by compute_time_step",
     "purity: arrays handed to write_vtu / write_pvd are unchanged; importing twice gives the same state; an older "
     "state imported before is replaced completely",
 ]
 BOUNDS = {
     "quick": "2-d: all 84 letter sequences of length <= 3, binary (ascii for length <= 2); 3-d: all sequences of "
              "length <= 2; 5 fractured md-grids; 7 time-step label sets; 9 clocks (start, dt, steps) through the model mixin; 9 "
-             "(labels, times) assignments through write_pvd(times=)",
+             "(labels, times) assignments through write_pvd(times=); 16 time-information round trips (constant / "
+             "adaptive x 4 reader bounds x {assigned, computed} dt histories) x every index",
     "thorough": "2-d: all 84 sequences x {binary, ascii}; 3-d: all 39 sequences of length <= 3 x {binary, ascii}; "
-                "5 fractured md-grids x {binary, ascii}; 9 label sets; 13 clocks; 9 (labels, times) assignments",
+                "5 fractured md-grids x {binary, ascii}; 9 label sets; 13 clocks; 9 (labels, times) assignments; 16 time-information round trips",
 }
 MIN_CLASSES = 6
 CHUNK = 2
@@ -80,6 +84,13 @@ PVD_TIMES = [
 ]
 
 
+# time-information round trip: the writer has dt_min_max = (0.2, 0.5); written dt values lie inside, on and
+# outside these bounds; the restoring TimeManager has the same or other bounds
+TI_WRITER_BOUNDS = (0.2, 0.5)
+TI_DTS = [0.3, 0.1, 0.8, 0.2, 0.5, 0.25, 0.0625, 1.5]
+TI_READER_BOUNDS = [(0.2, 0.5), (0.05, 0.1), (1.0, 2.0), (0.25, 0.4)]
+
+
 def cases(tier):
     out = []
     for n in (1, 2, 3):
@@ -102,6 +113,10 @@ def cases(tier):
         out.append({"kind": "clock", "t0": t0, "dt": dt, "n": n})
     for labels, times in PVD_TIMES:
         out.append({"kind": "pvdtimes", "labels": labels, "times": times})
+    for constant in (True, False):
+        for reader in TI_READER_BOUNDS:
+            for source in ("assigned", "adaptive"):
+                out.append({"kind": "timeinfo", "constant_dt": constant, "reader_dt_min_max": list(reader), "source": source})
     return out
 
 
@@ -430,6 +445,76 @@ def _run_clock(out, case):
     _cleanup(folder)
 
 
+# ----------------------------------------------------------------------------- time information
+
+
+def _run_timeinfo(out, case):
+    import porepy as pp
+
+    constant = case["constant_dt"]
+    rb = tuple(case["reader_dt_min_max"])
+    folder = Path("ti_" + "".join(ch if ch.isalnum() else "_" for ch in str(sorted(case.items())))[:100])
+    path = folder / "times.json"
+    desc = {"constant_dt": constant, "writer_dt_min_max": list(TI_WRITER_BOUNDS), "reader_dt_min_max": list(rb),
+            "source": case["source"]}
+    try:
+        # a constant clock needs a dt that divides the schedule
+        tm = pp.TimeManager(schedule=[0.0, 1.0, 2.0] if case["source"] == "adaptive" else [0.0, 10.0],
+                            dt_init=0.25 if constant else 0.3, constant_dt=constant, dt_min_max=TI_WRITER_BOUNDS)
+        written = []
+        if case["source"] == "assigned":
+            t = 0.0
+            for dt in TI_DTS:
+                tm.time, tm.dt = t, dt
+                tm.write_time_information(path)
+                written.append((float(tm.time), float(tm.dt)))
+                t = t + dt
+        else:
+            # a real run of the clock: the schedule correction is applied last, so that time steps below
+            # dt_min are written legitimately (t = 0.9 -> dt = 0.1)
+            tm.write_time_information(path)
+            written.append((float(tm.time), float(tm.dt)))
+            for _ in range(40):
+                if tm.final_time_reached():
+                    break
+                tm.increase_time()
+                tm.increase_time_index()
+                if not constant:
+                    tm.compute_time_step(iterations=5)
+                elif tm.time + tm.dt > tm.time_final:
+                    break
+                tm.write_time_information(path)
+                written.append((float(tm.time), float(tm.dt)))
+    except Exception as e:
+        # the writing clock itself is not the subject; a configuration it rejects is not a letter
+        out.ev("timeinfo/skipped:writer-" + type(e).__name__)
+        _cleanup(folder)
+        return
+    lo, hi = TI_WRITER_BOUNDS
+    for k in list(range(len(written))) + [-1]:
+        t_w, dt_w = written[k]
+        d2 = dict(desc, time_index=k, written_time=t_w, written_dt=dt_w, history=written)
+        try:
+            tm2 = pp.TimeManager(schedule=[0.0, 10.0], dt_init=0.25 if constant else 0.5 * (rb[0] + rb[1]),
+                                 constant_dt=constant, dt_min_max=rb)
+            tm2.load_time_information(path)
+            tm2.set_time_and_dt_from_exported_steps(k)
+        except Exception as e:
+            out.violate("restoring time and dt from the written time information raised", error=repr(e), **d2)
+            out.ev("VIOLATION")
+            continue
+        if float(tm2.time) != t_w or float(tm2.dt) != dt_w:
+            out.violate("restored time / dt differ from the written ones", restored_time=float(tm2.time),
+                        restored_dt=float(tm2.dt), **d2)
+            out.ev("VIOLATION")
+            continue
+        where = "below-min" if dt_w < rb[0] else "above-max" if dt_w > rb[1] else "inside"
+        wherew = "below-min" if dt_w < lo else "above-max" if dt_w > hi else "inside"
+        out.ev(f"timeinfo/{'constant' if constant else 'adaptive'}/{case['source']}/writer-{wherew}/reader-{where}",
+               ("ti", constant, rb, case["source"], k) if (where != "inside" or wherew != "inside") else None)
+    _cleanup(folder)
+
+
 # ----------------------------------------------------------------------------- driver
 
 
@@ -449,6 +534,8 @@ def run_case(case) -> Outcome:
     elif kind == "steps":
         _roundtrip(out, case, lambda: G.mdg_from_sequence("Q"), {"subdomains": "Q"}, list(case["labels"]), True, False,
                    "steps")
+    elif kind == "timeinfo":
+        _run_timeinfo(out, case)
     elif kind == "pvdtimes":
         _roundtrip(out, case, lambda: G.mdg_fractured("cart2-1f"), {"md_grid": "cart2-1f"}, list(case["labels"]), True,
                    False, "pvdtimes", times=list(case["times"]))
